@@ -147,6 +147,10 @@ def handleE2E (fs : List String) : String :=
   -- an audited request header: the configuration in force is the update's when it was stored, the earlier one when its
   -- storage write failed (an update that answers with an error has no effect)
   -- on a standby that audits its own requests the configuration in force is the cluster's persisted one
+  -- a disable of the only device: stored => no device, nothing audited (no device is enabled); its table write fails =>
+  -- error, the device stays enabled and keeps auditing (an operation that answers with an error has no effect)
+  | ["disableaudit", fault] =>
+    if fault = "1" then "err|listed:1|audited:1" else if fault = "0" then "ok|listed:0|audited:0" else "bad-op"
   | ["hdrstandby", upd] =>
     if upd = "to-hmac" then "hdr:hmac" else if upd = "removed" then "hdr:absent" else "bad-op"
   | ["hdr", upd, fault] =>
